@@ -55,25 +55,25 @@ const (
 	// the iteration over the map childrenPositions: whether an item spanning several tracks counts as
 	// "spanning a flexible track" depends on map order (findings/C15/grid-span-flex-order.json).
 	// Trigger: an item spanning >= 2 tracks in an axis that has an fr track.
-	gridSpanFlexDefectOpen = true
+	gridSpanFlexDefectOpen = false
 	// grid.go resolveTracksSizes 1.2.2 ('y'): the items of a row are measured in map order, each with
 	// the running maximum of the previous ones as the height of its containing block: a percentage
 	// height of an item resolves against what happened to be measured before it
 	// (findings/C15/grid-row-percent-height-order.json).  Trigger: percentage height on a grid item.
-	gridPercentHeightDefectOpen = true
+	gridPercentHeightDefectOpen = false
 	// text/quotes.go GetLangQuotes ranges over the map langQuotes and takes the first key that is a
 	// prefix of the language: "fr_CA_x" gets the quotes of "fr" or of "fr_CA"
 	// (findings/C15/lang-quotes-prefix-order.json).  Trigger: quotes: auto and a language that is not a
 	// key itself and has two keys as prefixes.
-	langQuotesPrefixDefectOpen = true
+	langQuotesPrefixDefectOpen = false
 	// svg/tree.go inheritDefs ranges over the map of definitions: with a cycle of href references
 	// between gradients what each one inherits depends on where the iteration enters the cycle
 	// (findings/C15/svg-gradient-href-cycle-order.json).  Trigger: href cycle of length >= 2.
-	svgHrefCycleDefectOpen = true
+	svgHrefCycleDefectOpen = false
 	// grid.go resolveTracksSizes measures the items by laying them out in map order with the real
 	// layout context: the footnotes of the items are appended to the page's footnote area in that order
 	// (findings/C15/grid-footnote-order.json).  Trigger: footnotes in two items of a grid.
-	gridFootnoteOrderDefectOpen = true
+	gridFootnoteOrderDefectOpen = false
 )
 
 func (g *dg) frOK() bool   { return !gridSpanFlexDefectOpen || g.gridFr }
